@@ -101,4 +101,38 @@ def runFiles (files : List FileRun) : List (Nat × Int) :=
 writes the whole body again -/
 def runAttempts (attempts : List (List FileRun)) : List (Nat × Int) := attempts.flatMap runFiles
 
+/-! ### downloads that take several exchanges
+
+The transport hands EVERY response body of a round trip to the progress wrapper
+(`handleResponseBody`): the bodies of redirect responses (net/http reads up to 2 KiB of them and
+closes them before it follows the Location), and at last the body of the response the caller
+gets.  `Client.roundTrip` makes a FRESH `callbackReader` for each body, and (fixes/C17-11) its
+callback is silent until the response has been handed to the request (`resp.Response != nil`):
+what is read inside the http client is not the download.  A retry is a new round trip: its own
+readers, its own final response. -/
+
+/-- one response body that went through the wrapper: the reads (then `Close`), and whether the
+response had been handed to the request when they happened -/
+structure BodyRun where
+  evs : List REvent
+  handedOver : Bool
+deriving Repr, DecidableEq
+
+/-- what the caller's download callback receives during one round trip -/
+def runBodies (bodies : List BodyRun) : List Int :=
+  bodies.flatMap fun b => if b.handedOver then runRC ⟨0, 0⟩ b.evs else []
+
+/-- a round trip: redirect hops (never handed over), then the final response -/
+def roundTrip (hops : List (List REvent)) (final : List REvent) : List BodyRun :=
+  hops.map (fun h => ⟨h, false⟩) ++ [⟨final, true⟩]
+
+/-- several attempts (retries): each a round trip of its own -/
+def runDownloadAttempts (attempts : List (List (List REvent) × List REvent)) : List Int :=
+  attempts.flatMap fun a => runBodies (roundTrip a.1 a.2)
+
+/-- the SEEDED / naive variant for comparison: ONE counter for all the bodies of a round trip
+(C17-r4-1), every read reported -/
+def runSharedCounter (bodies : List (List REvent)) : List Int :=
+  runRC ⟨0, 0⟩ bodies.flatten
+
 end Req.Progress
